@@ -62,6 +62,27 @@ def build(spec):
         U = _unitary(rng, n)
         A = qalg.mmm(U, qalg.diag(spec["lam"], n, n), qalg.herm(U))
         A = (A + qalg.herm(A)) * 0.5  # exactly Hermitian
+    elif g == "herm_vec":
+        # Hermitian with a prescribed "natural" real vector (all ones / alternating signs / ramp)
+        # as eigenvector of the NON-dominant eigenvalue lam[k]; the other eigenvectors are random
+        n, k = spec["n"], spec["k"]
+        rng = _rng(spec["seed"])
+        v = {"ones": np.ones(n), "alt": np.array([(-1.0) ** i for i in range(n)]),
+             "ramp": np.arange(1.0, n + 1.0)}[spec["vec"]]
+        v = v / np.linalg.norm(v)
+        u = v.copy()
+        u[0] -= 1.0
+        Hm = np.eye(n) if np.linalg.norm(u) < 1e-14 else np.eye(n) - 2.0 * np.outer(u, u) / float(u @ u)
+        F = np.zeros((n, n, 4))
+        F[..., 0] = Hm
+        W = qalg.eye(n)
+        if n > 1:
+            W[1:, 1:] = _unitary(rng, n - 1)
+        Q = qalg.mm(qalg.from_comps(F), W)
+        lam = list(spec["lam"])
+        order = [lam[k]] + [lam[j] for j in range(n) if j != k]
+        A = qalg.mmm(Q, qalg.diag(order, n, n), qalg.herm(Q))
+        A = (A + qalg.herm(A)) * 0.5
     elif g == "unitary":
         A = _unitary(_rng(spec["seed"]), spec["n"])
     elif g == "cI":
@@ -223,7 +244,7 @@ def shape_of(spec):
     g = spec.get("gen")
     if g in ("gauss", "int", "psvd", "zeros", "real", "complex", "entry", "realq", "imagq", "maskq"):
         return (spec["m"], spec["n"])
-    if g in ("herm", "unitary", "cI", "I_lowrank", "tri", "hess", "tridiag_herm"):
+    if g in ("herm", "herm_vec", "unitary", "cI", "I_lowrank", "tri", "hess", "tridiag_herm"):
         return (spec["n"], spec["n"])
     if g == "diagq":
         return (len(spec["vals"]), len(spec["vals"]))
